@@ -143,15 +143,14 @@ def field_pcmp(ftype, combo, tr, x, y):
 def field_eq(ftype, combo, x, y):
     s = selected('PartialEq', combo)
     if s is None:
-        return x == y
+        return x == y and not (ftype == 'P' and x == 9)
     k = KEY[s[1]][1] if s[0] == 'key' else BY[s[1]][1]
     return k(x) == k(y)
 
 
 def p_pcmp(x, y):
-    """the partially ordered field type P: 9 is incomparable with everything but itself"""
-    if x == y:
-        return 'E'
+    """the partially ordered field type P: 9 behaves like NaN - unequal to and incomparable with everything, itself
+    included (so `x == x` must be computed, not assumed)"""
     if x == 9 or y == 9:
         return 'N'
     return _cmp(x, y)
@@ -252,9 +251,9 @@ def rust_value(name, variants, is_enum, v):
 P_TYPE = '''
 #[derive(Debug, Clone, Copy)]
 pub struct P(pub u8);
-impl PartialEq for P { fn eq(&self, o: &P) -> bool { self.0 == o.0 } }
+impl PartialEq for P { fn eq(&self, o: &P) -> bool { self.0 == o.0 && self.0 != 9 } }
 impl PartialOrd for P { fn partial_cmp(&self, o: &P) -> Option<Ordering> {
-    if self.0 == o.0 { Some(Ordering::Equal) } else if self.0 == 9 || o.0 == 9 { None } else { self.0.partial_cmp(&o.0) } } }
+    if self.0 == 9 || o.0 == 9 { None } else { self.0.partial_cmp(&o.0) } } }
 impl Hash for P { fn hash<H: Hasher>(&self, s: &mut H) { s.write_u8(self.0) } }
 '''
 
@@ -262,7 +261,8 @@ impl Hash for P { fn hash<H: Hasher>(&self, s: &mut H) { s.write_u8(self.0) } }
 def module_source(cid, head, item_text, name, variants, is_enum, traits, values):
     """Rust module: the item with the real derive_ex, manual stand-ins for missing supertraits, and
     `run` printing one line per derived trait: results over all ordered pairs / values."""
-    src = [head + item_text]
+    from . import l2
+    src = [l2.decl(head, item_text, cid, every=5)]
     # supertraits rustc demands but the case does not derive: trivial manual impls
     if ('Eq' in traits or 'PartialOrd' in traits or 'Ord' in traits) and 'PartialEq' not in traits:
         src.append('impl PartialEq for %s { fn eq(&self, _: &Self) -> bool { true } }' % name)
